@@ -42,3 +42,11 @@ Fixpoint hist (n : nat) (d : dfun) : list Z * list Z :=
   | O => ([], firstn (nvars d) (d_vals d))
   | S m => let '(ys, vs) := hist m (next_d d) in (primal d :: ys, vs)
   end.
+
+(* lift.custom_vjp(fn, forward_fn, backward_fn, grad_vars): evaluated without differentiation the result is fn's value; under
+   differentiation the cotangents are what the USER's backward rule returns for the residuals and the incoming cotangent, for the
+   collections grad_vars selects and for the inputs.  The rule used by the correspondence returns rv times the true cotangent
+   for every selected variable and ri times the true cotangent for every input. *)
+Definition custom_vjp_value (d : dfun) : Z := primal d.
+Definition custom_vjp_model (f : filt) (d : dfun) (rv ri ct : Z) : Z * list (nat * Z) * list Z :=
+  let '(y, vg, ig) := vjp_model f d ct in (y, map (fun g => (fst g, (rv * snd g)%Z)) vg, map (Z.mul ri) ig).
